@@ -6,7 +6,11 @@ Import ListNotations.
 
 Inductive case :=
   (* clustering.<lk>_linkage(points with x = xs, t) returned out, and out2 for the threshold t2 (None = exception) *)
-  | CLink (lk : linkage) (xs : list float) (t t2 : float) (out out2 : option (list nat)).
+  | CLink (lk : linkage) (xs : list float) (t t2 : float) (out out2 : option (list nat))
+  (* same-object stream: ONE points buffer served a sequence of calls (any linkage, varying t), refilled in place between
+     some of them; each step = (linkage, the x the buffer held at that call, t, what the call returned);
+     intact = after every call the buffer still held exactly those contents *)
+  | CLinkSeq (steps : list (linkage * list float * float * option (list nat))) (intact : bool).
 
 Fixpoint f_increasing (l : list float) : bool :=
   match l with
@@ -28,7 +32,8 @@ Definition monotone_applies (lk : linkage) : bool :=
    agree: 0 the model's labels = the implementation's for both thresholds, 1 differ, 6 outside the property's domain
           (fewer than 2 points, x not strictly increasing, t <= 0 or NaN, t2 < t)
    holds: on the IMPLEMENTATION's labels: 1 shape/rule false at t, 2 shape/rule false at t2,
-          3 (single, complete) more clusters at the larger threshold *)
+          3 (single, complete) more clusters at the larger threshold
+          CLinkSeq: 1 some call's labels break shape/rule for the contents the buffer had at that call, 4 the buffer was rewritten *)
 Definition judge (c : case) : Z :=
   match c with
   | CLink lk xs t t2 out out2 =>
@@ -46,9 +51,18 @@ Definition judge (c : case) : Z :=
                  end
                else 0%Z in
       (100 * a + h)%Z
+  | CLinkSeq steps intact =>
+      let a := if forallb (fun s => match s with (lk, xs, t, out) => opt_list_eqb (@linkage_labels FloatNum lk xs t) out end) steps
+               then 0%Z else 1%Z in
+      let dom := forallb (fun s => match s with (lk, xs, t, out) => (2 <=? length xs) && f_increasing xs && PrimFloat.ltb 0 t end) steps in
+      if negb dom then (600 + a)%Z else
+      let h := if negb (forallb (fun s => match s with (lk, xs, t, out) => holds_opt lk xs t out end) steps) then 1%Z
+               else if negb intact then 4%Z else 0%Z in
+      (100 * a + h)%Z
   end.
 
-Definition show (c : case) : option (list nat) * option (list nat) :=
+Definition show (c : case) : list (option (list nat)) :=
   match c with
-  | CLink lk xs t t2 out out2 => (@linkage_labels FloatNum lk xs t, @linkage_labels FloatNum lk xs t2)
+  | CLink lk xs t t2 out out2 => [@linkage_labels FloatNum lk xs t; @linkage_labels FloatNum lk xs t2]
+  | CLinkSeq steps intact => map (fun s => match s with (lk, xs, t, out) => @linkage_labels FloatNum lk xs t end) steps
   end.
